@@ -27,6 +27,9 @@ from .sym import Sym, SymError, symarray
 from . import executor as X
 
 
+CAP_CUTS = set()    # (which, constant) of every cap cut taken in this process (reported with the evidence)
+
+
 def has_sym(a):
     if isinstance(a, Sym):
         return True
@@ -106,6 +109,38 @@ class NumpyProxy(types.ModuleType):
         if name in self.extra:
             return self.extra[name]
         return getattr(_np, name)
+
+    # -- caps ----------------------------------------------------------------
+    def _cap(self, a, b, which):
+        """numpy.minimum / maximum.  A symbolic value against a numeric constant is a *cap*: the symbolic side is returned and the
+        cut `x <= c` (resp. `x >= c`) is recorded as a restriction of the claim -- no fork per array element."""
+        if not (has_sym(a) or has_sym(b)):
+            return getattr(_np, which)(a, b)
+        A, B = _np.broadcast_arrays(_np.asarray(a, dtype=object), _np.asarray(b, dtype=object))
+        out = _np.empty(A.shape, dtype=object)
+        fo = out.ravel()
+        for i, (x, y) in enumerate(zip(A.ravel().tolist(), B.ravel().tolist())):
+            nx = S._try_numeric(Sym.of(x)) if isinstance(x, Sym) else x
+            ny = S._try_numeric(Sym.of(y)) if isinstance(y, Sym) else y
+            if nx is not None and ny is not None:
+                fo[i] = x if ((nx <= ny) == (which == "minimum")) else y
+                if not isinstance(fo[i], Sym):
+                    fo[i] = Sym.of(fo[i])
+            elif nx is None and ny is not None:
+                fo[i] = x
+                CAP_CUTS.add((which, float(ny)))
+            elif ny is None and nx is not None:
+                fo[i] = y
+                CAP_CUTS.add((which, float(nx)))
+            else:
+                raise SymError("numpy.%s of two symbolic values is not modelled" % which)
+        return out if out.shape else out[()]
+
+    def minimum(self, a, b):
+        return self._cap(a, b, "minimum")
+
+    def maximum(self, a, b):
+        return self._cap(a, b, "maximum")
 
     # -- array creation ------------------------------------------------------
     def zeros(self, shape, dtype=None, **kw):
